@@ -39,6 +39,10 @@ MANDATORY = '<mandatory>'
 
 
 # ------------------------------------------------------------------------------- taint
+COPIES = ('sorted', 'list', 'tuple', 'reversed', 'enumerate', 'iter', 'dict', 'set', 'frozenset', 'OrderedDict')
+ORDERING = ('sorted', 'min', 'max')
+
+
 class Taint:
     """names holding YAML-untyped values, per function of configuration.py (flow-insensitive,
     interprocedural over resolved calls; refinements by dominating type guards)"""
@@ -90,6 +94,9 @@ class Taint:
             return self.is_tainted(fi, e.body) or self.is_tainted(fi, e.orelse)
         if isinstance(e, ast.Call) and isinstance(e.func, ast.Attribute) and e.func.attr in DICT_METHODS:
             return self.is_tainted(fi, e.func.value)
+        if isinstance(e, ast.Call) and isinstance(e.func, ast.Name) and e.func.id in COPIES and e.args:
+            # the same untyped values in another container / order
+            return self.is_tainted(fi, e.args[0])
         return False
 
     def _fix(self):
@@ -167,6 +174,12 @@ class Taint:
                 nm = base_name(it)
                 if not (nm and self.is_refined(fi, nm, it, ('dict', 'list', 'str', 'OrderedDict'))):
                     out.append(('TypeError', 'iteration over untyped configuration value: %s' % src(it)[:60], it))
+        if isinstance(x, ast.Call) and isinstance(x.func, ast.Name) and x.func.id in ORDERING and x.args and self.is_tainted(fi, x.args[0]) \
+                and not any(kw.arg == 'key' for kw in x.keywords):
+            # YAML keys and values of one mapping can be of different types (1: and "a":): ordering them compares int with str
+            out.append(('TypeError', 'ordering untyped configuration values: %s' % src(x)[:60], x))
+        if isinstance(x, ast.Call) and ((isinstance(x.func, ast.Attribute) and x.func.attr == 'sort' and self.is_tainted(fi, x.func.value))):
+            out.append(('TypeError', 'ordering untyped configuration values: %s' % src(x)[:60], x))
         if isinstance(x, ast.Call):
             r = self.res.resolve_call(x, fi, count=False)
             if r.kind == 'lib' and r.lib == 'socket.getaddrinfo' and x.args and self.is_tainted(fi, x.args[0]):
